@@ -558,6 +558,13 @@ func (g *G) TypedOp(kind string, s Schema, env *TEnv, joinDepth int) (Op, Schema
 					Y: &Binary{Op: ">", X: sideRef("$left", l.Name), Y: g.intLit()}}))
 			}
 		}
+		if g.n("manyconds", 12) == 0 {
+			// a long condition list (the same few conditions over and over)
+			base := append([]Expr{}, conds...)
+			for n := 9 + g.n("nmanyconds", 8); len(conds) < n; {
+				conds = append(conds, base[len(conds)%len(base)])
+			}
+		}
 		if env.UseBindings > 0 {
 			if b, ok := g.bindingOf(env, TInt, "join"); ok {
 				l := pickFrom(g, "lcol", li)
